@@ -1797,6 +1797,9 @@ func (f *fctx) loopEnv(h *ssa.BasicBlock, from *ssa.BasicBlock, st *State) *Env 
 	for name, v := range f.reachingDefs(h) {
 		if key, ok := f.mapKey[v]; ok {
 			if t, ok := st.cells[key]; ok {
+				if t.Ty == nil {
+					t.Ty = v.Type()
+				}
 				vars[name] = t
 			}
 			continue
